@@ -14,7 +14,8 @@ RULE = ("A generated program (C02 generator: forward / backward label references
         "the canonical result (outcome, image, every listing line, symbol table in order, origin, name, diagnostic) of "
         "assembling the spliced text; 1 case in 8 repeats the comparison through real assembler.py processes (--to_bin "
         "bytes, --print --symbols output). A second search includes one label-free file two or three times in a "
-        "program (side by side, or once directly and once through another file). Missing files and inclusion cycles must be diagnostics. Non-trivial = a "
+        "program (side by side, or once directly and once through another file). Half of the programs carry comments "
+        "holding VT, FF, FS, GS, RS, NEL, U+2028 or U+2029 (line ends to str.splitlines, not to a file read line by line). Missing files and inclusion cycles must be diagnostics. Non-trivial = a "
         "label reference crosses a file boundary; distinct by case hash.")
 ASSUMPTIONS = [
     "the spliced program is the reference: both sides run the same assembler, the relation is metamorphic",
@@ -24,9 +25,22 @@ HEALTH = {"crossing_reference": 0.08, "nested": 0.04, "cli": 16, "repeated_inclu
 EXHAUSTIVE = {}
 
 _FN = ["a", "b", "cc", "defs", "zzzzzzzz", "m", "inc/sub", "inc/deep"]
+# characters that some line-splitting routines (str.splitlines) take for line ends although a text file read line by
+# line does not: put into comments, they must not make an included file parse differently from the same text inline
+_SEPARATORS = ["\x0b", "\x0c", "\x1c", "\x1d", "\x1e", "\x85", "\u2028", "\u2029", "\t"]
+_odd = st.lists(st.tuples(st.integers(0, 60), st.sampled_from(_SEPARATORS)), min_size=0, max_size=3)
 _case = st.fixed_dictionaries(dict(
     prog=proggen.program, cuts=st.lists(st.integers(0, 60), min_size=4, max_size=7), nested=st.booleans(),
-    names=st.permutations(_FN), cli=st.integers(0, 7)))
+    names=st.permutations(_FN), cli=st.integers(0, 7), odd=st.one_of(st.just([]), _odd)))
+
+
+def with_odd_comments(lines, odd):
+    lines = list(lines)
+    for at, ch in odd or []:
+        i = at % len(lines)
+        if ";" not in lines[i] and " FCC " not in lines[i] and lines[i].strip():
+            lines[i] = lines[i].rstrip("\n") + " ; see" + ch + " LDA #1 " + ch + "note\n"
+    return lines
 
 
 NEGATIVE = [
@@ -139,7 +153,7 @@ def render(case):
     if case.get("rep"):
         flat, files, main = build_repeat(case)
         return dict(repeated=True, files=dict((k, [l.rstrip("\n") for l in v][:15]) for k, v in files.items()))
-    lines = proggen.render(case["prog"])
+    lines = with_odd_comments(proggen.render(case["prog"]), case.get("odd"))
     files, main = split(lines, case["cuts"], case["nested"], case["names"])
     return dict(nested=case["nested"], files=dict((k, [l.rstrip("\n") for l in v][:15]) for k, v in files.items()))
 
@@ -190,7 +204,9 @@ def execute(case):
         labels.append("repeated_include")
         crossing = True
     else:
-        lines = proggen.render(case["prog"])
+        lines = with_odd_comments(proggen.render(case["prog"]), case.get("odd"))
+        if case.get("odd"):
+            labels.append("separator_in_comment")
         files, main = split(lines, case["cuts"], case["nested"], case["names"])
         if len(files) < 2:
             return skip("no include file produced by these cuts", labels=labels)
